@@ -1,7 +1,7 @@
 """The implementation side of the correspondence: run operations of the real API classes against a scripted
 device (in-process reader/writer, or a fake device on loopback TCP), render what happened canonically, and the
 generators shared by the frame properties (C01 C02 C03 C09 C16)."""
-import asyncio, binascii, datetime as D, logging, os, random, struct, sys
+import asyncio, heapq, binascii, datetime as D, logging, os, random, struct, sys
 from unittest.mock import MagicMock
 import time_machine
 import lib
@@ -125,6 +125,38 @@ class ScriptedApi:
         except Exception as e:
             out = "exc:" + exc_name(e)
         return "".join(f + "|" for f in self.frames) + out
+
+
+class VirtualLoop(asyncio.SelectorEventLoop):
+    """Event loop on a virtual clock: when nothing is ready the clock jumps to the next timer, so a scripted device may take
+    minutes or hours to answer at no cost.  Only for in-process scripted streams (no real sockets)."""
+    def __init__(self):
+        super().__init__(); self._vnow = 0.0
+    def time(self): return self._vnow
+    def _run_once(self):
+        while self._scheduled and self._scheduled[0]._cancelled:       # as BaseEventLoop._run_once does, before looking at the head
+            h = heapq.heappop(self._scheduled); h._scheduled = False; self._timer_cancelled_count -= 1
+        if not self._ready and self._scheduled:
+            w = self._scheduled[0]._when
+            if w > self._vnow: self._vnow = w
+        super()._run_once()
+
+
+def run_virtual(coro):
+    loop = VirtualLoop()
+    try: return loop.run_until_complete(coro)
+    finally: loop.close()
+
+
+class SlowApi(ScriptedApi):
+    """scripted stream whose every reply arrives after a scripted (virtual) delay"""
+    def __init__(self, *a):
+        super().__init__(*a); self.delays = []
+        async def read(n):
+            d = self.delays.pop(0) if self.delays else 0
+            if d: await asyncio.sleep(d)
+            return self.script.pop(0) if self.script else b""
+        self.api._reader.read = read
 
 
 def run_cases_fresh(cases):
